@@ -66,6 +66,11 @@ MUTANTS = [
     ("C06", "bias_on_pseudoscalars", G + "ml/layers.py", "if (k, p) == (0, 0) and (self.use_bias == \"scalar\" or self.use_bias == \"auto\"):", "if k == 0 and (self.use_bias == \"scalar\" or self.use_bias == \"auto\"):", "additive bias on pseudo-scalars"),
     ("C06", "mean_over_last_axis", G + "ml/layers.py", "image, axis=tuple(range(1, 1 + self.invariant_filters.D)), keepdims=True", "image, axis=tuple(range(2, 2 + self.invariant_filters.D)) if k > 0 else tuple(range(1, 1 + self.invariant_filters.D)), keepdims=True", "mean over one spatial axis and the first tensor axis for k>0"),
     ("C06", "asymmetric_same", G + "geometric/functional_geometric_image.py", "            return (((M - 1) // 2) * dilation, ((M - 1) // 2) * dilation)", "            return (((M - 1) // 2) * dilation + 1, ((M - 1) // 2) * dilation - 1)", "SAME padding shifted by one pixel"),
+    ("C01", "wrap_to_reflect", G + "geometric/functional_geometric_image.py", "torus_padding + ((0, 0),), mode=\"wrap\")", "torus_padding + ((0, 0),), mode=\"wrap\" if image.shape[1] != image.shape[2] else \"symmetric\")", "periodic halo replaced by a mirrored one on square images"),
+    ("C01", "zero_mask_not_complement", G + "geometric/functional_geometric_image.py", "        tuple(not torus for torus in is_torus),\n", "        tuple(not torus for torus in is_torus[:-1]) + (True,),\n", "last axis zero padded even when it is wrapped"),
+    ("C01", "parity_dropped", G + "geometric/geometric_image.py", "            self.parity + filter_image.parity,\n", "            self.parity,\n", "convolve_with forgets the filter parity"),
+    ("C01", "torus_amount_one_sided", G + "geometric/functional_geometric_image.py", "padding_f = lambda M, dilation, torus: ((((M - 1) // 2) * dilation),) * 2 if torus else (0, 0)", "padding_f = lambda M, dilation, torus: ((((M - 1) // 2) * dilation), ((M - 1) // 2) * dilation + (dilation - 1)) if torus else (0, 0)", "wrap halo larger on the high side for dilation > 1"),
+    ("C01", "expand_order_swapped", G + "geometric/functional_geometric_image.py", "        image_b_expanded = image_b_expanded.transpose(idxs)\n", "        image_b_expanded = image_b_expanded.transpose(idxs) if img_b_k == 0 or img_a_k != img_b_k else jnp.moveaxis(image_b_expanded.transpose(idxs), -1, -(1 + img_b_k))\n", "filter tensor indices interleaved when k == k' > 0"),
     ("C19", "le", G + "ml/stopping_conditions.py", "if train_loss < (self.best_train_loss - self.min_delta):", "if train_loss <= (self.best_train_loss - self.min_delta):", "non-strict improvement test"),
     ("C19", "ge_patience", G + "ml/stopping_conditions.py", "        return self.epochs_since_best > self.patience\n\n\nclass ValLoss", "        return self.epochs_since_best >= self.patience\n\n\nclass ValLoss", "stops one epoch early"),
     ("C19", "no_reset", G + "ml/stopping_conditions.py", "            self.best_model = model\n            self.epochs_since_best = 0\n\n            if self.verbose >= 1:\n                self.log_status(current_epoch, train_loss, val_loss, epoch_time)\n        else:\n            self.epochs_since_best += 1\n\n        return self.epochs_since_best > self.patience\n\n\nclass ValLoss", "            self.best_model = model\n\n            if self.verbose >= 1:\n                self.log_status(current_epoch, train_loss, val_loss, epoch_time)\n        else:\n            self.epochs_since_best += 1\n\n        return self.epochs_since_best > self.patience\n\n\nclass ValLoss", "counter not reset on improvement"),
